@@ -315,7 +315,9 @@ def run_url(rec, case):
     url = '%s://%s%s%s%s%s%s' % (scheme, user, host, port, path,
                                  '?' + query if query else '', frag)
     rec.evaluations += 1
-    w = cli.make_world(kind, script={'pi': PI, 'pt': PT}, request_timeout=5)
+    ts = rng.random() < 0.7
+    w = cli.make_world(kind, script={'pi': PI, 'pt': PT}, request_timeout=5,
+                       timestamp_requests=ts)
 
     def V(key, msg):
         rec.viol(key, msg + ' | client=%s url=%r endpoint=%r transport=%s' % (
@@ -357,6 +359,9 @@ def run_url(rec, case):
             if rest.get('transport') != ('websocket' if is_ws else 'polling'):
                 V('url-transport', 'transport=%r on a %s request' % (
                     rest.get('transport'), rq['method']))
+            if not ts and 't' in rest:
+                V('url-timestamp-although-disabled', 't=%r with '
+                  'timestamp_requests=False' % rest['t'])
             extra = set(rest) - {'EIO', 'transport', 'sid', 't'}
             if extra:
                 V('url-extra-parameters', 'unexpected parameters %r' % extra)
